@@ -1,3 +1,4 @@
+import Fzf.Lemmas.Sublist
 import Fzf.Lemmas.Prog
 /-
 C05 — matching is a pure function of (line, query, options).
@@ -50,5 +51,26 @@ theorem C05_v2_two_slabs_agree (cfg : Cfg) (cs norm fwd : Bool) (t : Text) (isBy
     fuzzyMatchV2Slab cfg cs norm fwd t isBytes p withPos slab junk₂ false := by
   rw [C05_v2_junk_independent _ _ _ _ _ _ _ _ _ junk₀ junk₁ r h,
       C05_v2_junk_independent _ _ _ _ _ _ _ _ _ junk₀ junk₂ r h]
+
+/-- **Filtering a sub-list yields the full result restricted to that sub-list, in the same
+    relative order.** For the ranked results of distinct items (any rank points, --tac or not):
+    ranking the results that belong to any sub-collection gives the ranking of all results
+    restricted to it. (That an item's rank points do not depend on the other items is the
+    junk-independence theorem above plus the per-item structure of the matcher model.) -/
+theorem C05_sublist_restriction (ms : List Fzf.Rank.R) (tac : Bool)
+    (hd : ms.Pairwise fun a b => a.index ≠ b.index) (q : Fzf.Rank.R → Bool) :
+    (ms.filter q).mergeSort (fun a b => Fzf.Rank.compareRanks64 a b tac) =
+      (ms.mergeSort (fun a b => Fzf.Rank.compareRanks64 a b tac)).filter q :=
+  Fzf.Rank.sort_filter_comm ms tac hd q
+
+/-- … and the renumbering of the items that taking a sub-list of the input causes does not
+    change any comparison: the order depends on item numbers only through their order. -/
+theorem C05_renumbering_invariant (a b : Fzf.Rank.R) (tac : Bool) (f : Int → Int) (hf : ∀ x y, x ≤ y ↔ f x ≤ f y) :
+    Fzf.Rank.compareRanks64 ⟨a.pts, f a.index⟩ ⟨b.pts, f b.index⟩ tac = Fzf.Rank.compareRanks64 a b tac :=
+  Fzf.Rank.cmp_reindex a b tac f hf
+
+/- The hypothesis is what the matcher produces: one result per item. -/
+example : ([⟨[0, 0, 3, 9], 0⟩, ⟨[0, 0, 1, 9], 1⟩, ⟨[0, 0, 2, 9], 2⟩, ⟨[0, 0, 1, 9], 3⟩] : List Fzf.Rank.R).Pairwise
+    (fun a b => a.index ≠ b.index) := by decide
 
 end Fzf.Props.C05
